@@ -22,7 +22,7 @@ RULE = (
     "completion order is a function of the drawn table. Oracle: reference single runs computed serially with one thread and no "
     "cache; run_bldfm_timeseries (per tower), run_bldfm_multitower and run_bldfm_parallel must return tower names in configuration "
     "order, lists in time order, equal metadata (tower name, coordinates, timestamp, params) and fields within 1e-12 of the "
-    "reference maximum (bit-identity is counted); any exception from a driver is a violation. Non-trivial = towers*steps >= 2, "
+    "reference maximum (bit-identity is counted, and required of the serial drivers when the parent runs with the reference's single thread); any exception from a driver is a violation. Non-trivial = towers*steps >= 2, "
     ">= 2 workers and a delay table in which an earlier-submitted task sleeps longer than a later one; distinct = canonical JSON."
 )
 ASSUMPTIONS = [
@@ -153,7 +153,7 @@ def check_case(case):
     rel = 1e-12 if case["precision"] == "double" else 1e-6
     bit = [True]
 
-    def compare(driver, res, ref=ref):
+    def compare(driver, res, ref=ref, exact=False):
         if list(res.keys()) != names:
             out.bad(f"{driver}: tower keys {list(res.keys())} are not the configured towers in order {names}")
             return
@@ -175,7 +175,11 @@ def check_case(case):
                     if not np.array_equal(a, b):
                         bit[0] = False
                         err = float(np.abs(a.astype(float) - b.astype(float)).max())
-                        if not err <= rel * float(np.abs(b).max()):
+                        if exact:
+                            out.bad(f"{driver}: [{name!r}][{i}] {fld} is not bit-identical to the single run made in this process "
+                                    f"with the same thread setting (max diff {err:.3e}, {err / max(float(np.abs(b).max()), 1e-300):.1e} "
+                                    f"of the maximum; cache {'on' if case['use_cache'] else 'off'}, precision {case['precision']})")
+                        elif not err <= rel * float(np.abs(b).max()):
                             out.bad(f"{driver}: [{name!r}][{i}] {fld} differs from the single run for that tower and step by {err:.3e}")
                 for ga, gb in zip(r["grid"], e["grid"]):
                     if not np.array_equal(ga, gb):
@@ -207,7 +211,9 @@ def check_case(case):
                 continue
             finally:
                 signal.alarm(0)
-            compare(driver, res)
+            # serial drivers work in this process: with the reference's thread setting they repeat its very solves (or
+            # read them back from the cache), so the fields are the same bits
+            compare(driver, res, exact=case["parent_threads"] == 1)
         if flux is not None:
             try:
                 compare("run_bldfm_timeseries(surface_flux)", {t.name: iface.run_bldfm_timeseries(cfg, t, surface_flux=flux) for t in cfg.towers}, ref_flux)
@@ -217,7 +223,7 @@ def check_case(case):
         # a second pass with the cache now populated (hits instead of solves)
         if case["use_cache"] and case["footprint"]:
             try:
-                compare("run_bldfm_multitower (cache populated)", iface.run_bldfm_multitower(cfg))
+                compare("run_bldfm_multitower (cache populated)", iface.run_bldfm_multitower(cfg), exact=case["parent_threads"] == 1)
             except Exception as e:
                 out.bad(f"run_bldfm_multitower with a populated cache raised {type(e).__name__}: {e}")
         # parallel driver under the drawn schedule
